@@ -83,7 +83,8 @@ def serverMonitors (m : Msg) (o : SrvObs) : List Fail :=
    else [])
 
 /-- trailers: handed over only when well formed and within the limit; a bad trailer section fails the read -/
-def trailerMonitors (who : String) (lim : Int) (trl : Option (Int × List Field)) (bodyShown : Bool) (rerr : Bool) (tvals : String) : List Fail :=
+def trailerMonitors (who : String) (lim : Int) (trl : Option (Int × List Field)) (bodyShown : Bool) (rerr : Bool) (tvals : String)
+    (hasTail : Bool := false) : List Fail :=
   if !bodyShown then [] else
   match trl with
   | none => if tvals != "-" then [("trailers_only_wellformed", "-", s!"{who}: trailer values although no trailer section was sent")] else []
@@ -95,9 +96,118 @@ def trailerMonitors (who : String) (lim : Int) (trl : Option (Int × List Field)
     (if (!bad.isEmpty || tenc > lim) && !rerr then
        [("bad_trailers_fail_the_read", "-", s!"{who}: reading the body succeeded although the trailer section is malformed or over the limit")]
      else []) ++
-    (if bad.isEmpty && tenc ≤ lim && rerr then
+    (if bad.isEmpty && tenc ≤ lim && rerr && !hasTail then
        [("wellformed_trailers_accepted", "-", s!"{who}: reading the body failed although the trailer section is well formed")]
+     else []) ++
+    (if hasTail && !rerr then
+       [("frames_after_trailers_fail_the_read", "-", s!"{who}: reading the body succeeded although DATA / HEADERS frames follow the trailer section")]
      else [])
+
+/-! ### round 5: the state an error leaves behind -/
+
+def unhexDigit (c : Char) : Nat :=
+  let n := c.toNat
+  if 48 ≤ n && n ≤ 57 then n - 48 else if 97 ≤ n && n ≤ 102 then n - 87 else if 65 ≤ n && n ≤ 70 then n - 55 else 0
+def unhexL : List Char → List Nat
+  | a :: b :: rest => (unhexDigit a * 16 + unhexDigit b) :: unhexL rest
+  | _ => []
+def lowerByte (b : Nat) : Nat := if 65 ≤ b && b ≤ 90 then b + 32 else b
+
+/-- the `t=` text of the drivers (`<hexkey>:<hexvalue>,…;…` or `-`) as (lower-cased key, value) pairs -/
+def parseTrailerValues (t : String) : List (List Nat × List Nat) :=
+  if t == "-" || t == "" then [] else
+  (t.splitOn ";").flatMap fun kv =>
+    match kv.splitOn ":" with
+    | [k, vs] => (vs.splitOn ",").map fun v => ((unhexL k.toList).map lowerByte, unhexL v.toList)
+    | _ => [([], [])]
+
+/-- a message whose read has returned (an error or the end) stays finished: a consumer that reads on
+    gets no byte, and whatever was handed over as trailers was decoded from the message's trailer
+    section — the FIRST HEADERS frame behind the head —, not from anything sent after it.
+    `again`: bytes delivered by the later reads (none = the consumer did not read on). -/
+def stickyMonitors (who : String) (trl : Option (Int × List Field)) (bodyShown : Bool) (again : Option Nat) (tvals : String) : List Fail :=
+  if !bodyShown then [] else
+  (match again with
+   | some n => if n > 0 then
+       [("rejected_trailers_stay_rejected", "-", s!"{who}: {n} body bytes were delivered by reads AFTER the read of the message had " ++
+          "failed or ended (frames behind the trailer section must never reach the consumer)")]
+     else []
+   | none => []) ++
+  (let first : List Field := match trl with | some (_, tfs) => tfs | none => []
+   let foreign := (parseTrailerValues tvals).filter fun kv => !first.contains kv
+   if !foreign.isEmpty then
+     [("trailers_from_first_section_only", "-", s!"{who}: trailer values were handed over that the message's trailer section " ++
+        s!"does not carry: {",".intercalate (foreign.map fun kv => hex kv.1 ++ "=" ++ hex kv.2)}")]
+   else [])
+
+/-! ### round 5: the response writer when stream writes fail (`rsp` op) -/
+
+/-- a frame the raw peer read from the response stream -/
+inductive WFrame
+  /-- a HEADERS frame: its :status (none: it has none) and its fields -/
+  | hdr (status : Option (List Nat)) (fs : List Field)
+  | data (n : Nat)
+  | other (what : String)
+
+def parseWFrame (t : String) : WFrame :=
+  if t.startsWith "D" then .data ((t.drop 1).toString.toNat?.getD 0)
+  else if t.startsWith "H" && (t.splitOn ":").length ≥ 2 then
+    let st := ((t.drop 1).toString.splitOn ":").headD ""
+    let rest := ":".intercalate (((t.drop 1).toString.splitOn ":").drop 1)
+    let fs : List Field := if rest == "" then [] else (rest.splitOn ";").map fun kv =>
+      match kv.splitOn "=" with
+      | [k, v] => (unhexL k.toList, unhexL v.toList)
+      | _ => ([], [])
+    .hdr (if st == "-" then none else some (st.toList.map Char.toNat)) fs
+  else .other t
+
+def parseWire (w : String) : List WFrame := if w == "-" || w == "" then [] else (w.splitOn ",").map parseWFrame
+
+def isInterimStatus (st : List Nat) : Bool := st.length == 3 && st.head? == some 49
+
+/-- RFC 9114 §4.1: interim header sections, THE header section, DATA frames, at most one trailer
+    section. 0: before the header section, 1: behind it, 2: behind the trailers; none: not a response -/
+def wirePhase : Nat → WFrame → Option Nat
+  | 0, .hdr (some st) _ => if isInterimStatus st then some 0 else some 1
+  | 1, .data _ => some 1
+  | 1, .hdr none _ => some 2
+  | _, _ => none
+
+def wireLayout (w : List WFrame) : Option Nat := w.foldl (fun p f => p.bind (wirePhase · f)) (some 0)
+
+def fmtWFrame : WFrame → String
+  | .hdr (some st) _ => "HEADERS(" ++ String.ofList (st.map Char.ofNat) ++ ")"
+  | .hdr none _ => "HEADERS(no :status)"
+  | .data n => s!"DATA({n})"
+  | .other t => t
+
+/-- `endsWritable`: the write deadline is not expired when the handler returns (ghost state from the
+    script); `id`: the X-Id value the handler set. Judged on the frames the PEER read. -/
+def respMonitors (i : Nat) (endsWritable : Bool) (id : List Nat) (w : List WFrame) : List Fail :=
+  let lay := wireLayout w
+  (if lay.isNone then
+     [("response_header_section_first", "-", s!"response {i}: the frames on the stream are not a response (the header section " ++
+        s!"must come first, once): {" ".intercalate (w.map fmtWFrame)}")]
+   else []) ++
+  (if endsWritable && (lay == some 0) then
+     [("response_header_not_lost", "-", s!"response {i}: stream writes worked when the handler returned, but no header section " ++
+        s!"was sent: {" ".intercalate (w.map fmtWFrame)}")]
+   else []) ++
+  (w.flatMap fun f => match f with
+    | .hdr (some st) fs =>
+      let bad := failingClauses false (sectionSize fs) fs
+      (if !bad.isEmpty || !responseRules fs then
+         [("response_output_accepted", "-", s!"response {i}: a header section on the wire violates: {",".intercalate bad}" ++
+            (if responseRules fs then "" else " response-rules"))]
+       else []) ++
+      (if !isInterimStatus st && fieldValue fs (B "x-id") != id then
+         [("handler_fields_emitted", "-", s!"response {i}: the header section does not carry the handler's x-id field")]
+       else [])
+    | .hdr none fs =>
+      if !(trailerFailingClauses (sectionSize fs) fs).isEmpty then
+        [("response_output_accepted", "-", s!"response {i}: the trailer section on the wire is malformed")]
+      else []
+    | _ => [])
 
 /-- what the raw server saw, and what RoundTrip returned -/
 structure CliObs where
